@@ -32,6 +32,8 @@ type pingSpec struct {
 	hdrKey  []byte
 	rawHdr  bool // use hdrHash/hdrType/hdrKey exactly as given, even if empty
 	ttl     uint8
+	rawMsg  []byte // when set: the complete message bytes (header framing included)
+	sb      []byte // switch block
 }
 
 var craftBuilder = frame.NewFrameBuilder()
@@ -56,11 +58,14 @@ func craftPing(s pingSpec) ([]byte, error) {
 	msg[0], msg[1] = 1, uint8(len(hd))
 	copy(msg[2:], hd)
 	copy(msg[2+len(hd):], s.body)
+	if s.rawMsg != nil {
+		msg = s.rawMsg
+	}
 	src := s.src
 	if !src.IsValid() {
 		src = s.from.IP
 	}
-	f, err := craftBuilder.NewFrameV1(src, s.dst, s.msgType, nil, msg, s.appendix)
+	f, err := craftBuilder.NewFrameV1(src, s.dst, s.msgType, s.sb, msg, s.appendix)
 	if err != nil {
 		return nil, err
 	}
